@@ -12,8 +12,8 @@ CONSTANTS
   Group <- MCGroupS
   Reqs = {r1, r2}
   Kinds = {"plain", "forever", "upgrade"}
-  MaxProbes = 1
-  AllowBad = FALSE
+  MaxProbes = 2
+  AllowBad = TRUE
   SignalAfterNotify = TRUE
   Exempt = TRUE
 SYMMETRY Sym2
